@@ -54,9 +54,9 @@ Proof.
 Qed.
 
 Definition params_ok (sto : store) : Prop :=
-  (forall x i, map_get (ce_oparams env) x = Some i ->
+  (forall x i, x <> name_blank -> map_get (ce_oparams env) x = Some i ->
      exists v, store_get sto x = Some v /\ is_vint v = false /\ nth_bottom B (top + i) = Some v /\ 0 <= top + i < len B) /\
-  (forall x i, map_get (ce_oparams env) x = None -> map_get (ce_iparams env) x = Some i ->
+  (forall x i, x <> name_blank -> map_get (ce_oparams env) x = None -> map_get (ce_iparams env) x = Some i ->
      exists z, store_get sto x = Some (VInt z) /\ nth_bottom IB (itop + i) = Some z /\ 0 <= itop + i < len IB).
 
 Definition locals_ok (st : cstate) (sto : store) (L : list value) (IL : list Z) : Prop :=
@@ -122,12 +122,13 @@ Proof.
   exists [], vl. split; [|reflexivity]. cbn [app].
   destruct (store_get sto x) as [w|] eqn:Es; [|discriminate]. apply typed_ok in Hv. destruct Hv as [-> Hty].
   unfold cident in Hc. destruct Hpar as [Hop Hip].
+  cbn [safe] in Hsafe. apply negb_true_iff in Hsafe. apply Z.eqb_neq in Hsafe.
   destruct (map_get (ce_oparams env) x) as [i|] eqn:Eo.
-  - inversion Hc; subst. destruct (Hop _ _ Eo) as (v & Hs & Hnv & Hnb & Hr). rewrite Es in Hs. inversion Hs; subst.
+  - inversion Hc; subst. destruct (Hop _ _ Hsafe Eo) as (v & Hs & Hnv & Hnb & Hr). rewrite Es in Hs. inversion Hs; subst.
     step_at Hat. rewrite nth_bottom_app by exact Hr. rewrite Hnb.
     rewrite push_o_obj, push_i_obj by exact Hnv. reflexivity.
   - destruct (map_get (ce_iparams env) x) as [i|] eqn:Ei.
-    + inversion Hc; subst. destruct (Hip _ _ Eo Ei) as (z & Hs & Hnb & Hr). rewrite Es in Hs. inversion Hs; subst.
+    + inversion Hc; subst. destruct (Hip _ _ Hsafe Eo Ei) as (z & Hs & Hnb & Hr). rewrite Es in Hs. inversion Hs; subst.
       step_at Hat. rewrite nth_bottom_app by exact Hr. rewrite Hnb. reflexivity.
     + destruct (index_of Z.eqb x (cs_locals st) 0) as [i|] eqn:El; [|discriminate]. inversion Hc; subst.
       destruct Hloc as (HL & HIL & Hl). destruct (Hl _ _ El) as [Hr Hval]. rewrite Es in Hval.
